@@ -27,6 +27,8 @@ from .reach import ReachDefs
 
 MUTATORS = {"append", "extend", "add", "update", "insert", "setdefault", "appendleft", "__ior__"}
 OUTPARAM_METHODS = {"readinto": 0, "readinto1": 0, "recv_into": 0}
+CONSUMERS = {"builtins.list", "builtins.tuple", "builtins.set", "builtins.frozenset", "builtins.sorted", "builtins.bytes", "builtins.bytearray", "builtins.sum",
+             "builtins.max", "builtins.min", "builtins.any", "builtins.all", "itertools.chain", "itertools.chain.from_iterable"}
 MAXDEPTH = 30
 MAXSET = 60
 
@@ -429,10 +431,24 @@ class Flow:
                             tv = rest
                 out |= tv
             elif what == "iter":
-                out |= self._iter_elems(self.term(payload, f, env, depth + 1), env, depth)
+                elems = self._iter_elems(self.term(payload, f, env, depth + 1), env, depth)
+                # shape refinement: sibling loops over the same iterable that unpack n-tuples take those; this one the rest
+                ar = self._sibling_loop_arities(f, payload)
+                if ar:
+                    rest = frozenset(t for t in elems if not (t[0] == "list" and len(t[1]) in ar))
+                    if rest:
+                        elems = rest
+                out |= elems
             elif what == "iterunpack":
                 it, idx = payload
-                out.add(("elem", fs(("sub", self.term(it, f, env, depth + 1), fs(("const", idx))))))
+                itt = self.term(it, f, env, depth + 1)
+                elems = self._iter_elems(itt, env, depth) if any(t[0] == "inst" for t in itt) else frozenset()
+                tuples = [t for t in elems if t[0] == "list" and idx is not None and len(t[1]) > idx]
+                if tuples:
+                    for t in tuples:
+                        out |= t[1][idx]
+                else:
+                    out.add(("elem", fs(("sub", itt, fs(("const", idx))))))
             elif what == "unpack":
                 value, idx, n = payload
                 out |= self._unpack(value, idx, n, f, env, depth)
@@ -447,6 +463,18 @@ class Flow:
         for (val, site, keys, leaf) in self.local_mutations(f).get(name, []):
             out.add(self.mut_term(val, site, keys, leaf, f, env, depth))
         return frozenset(out)
+
+    def _consumed(self, arg_terms, env, depth):
+        """An argument that is iterated by its consumer (b''.join(x), list(x), x.extend(y) ...): a package iterator instance
+        contributes what its __next__ returns, not the arguments it was constructed with."""
+        if not any(t[0] == "inst" for t in arg_terms):
+            return arg_terms
+        insts = frozenset(t for t in arg_terms if t[0] == "inst")
+        rest = frozenset(t for t in arg_terms if t[0] != "inst")
+        elems = self._iter_elems(insts, env, depth)
+        keep = frozenset(t for t in elems if not (t[0] == "elem" and t[1] <= insts))
+        not_iter = frozenset(x for t in elems if t[0] == "elem" for x in t[1] if x in insts)
+        return rest | not_iter | (frozenset([("elem", keep)]) if keep else frozenset())
 
     def _iter_elems(self, it_terms, env, depth):
         """Terms of the elements obtained by iterating over a value."""
@@ -499,6 +527,22 @@ class Flow:
             else:
                 out.add(("sub", tv, fs(("const", idx))))
         return out
+
+    def _sibling_loop_arities(self, f, it_expr):
+        """Arities of tuple targets of other `for` loops in f over the same iterable expression."""
+        try:
+            txt = ast.unparse(it_expr)
+        except Exception:
+            return set()
+        key = (f, "loop:" + txt)
+        cache = self.__dict__.setdefault("_sua", {})
+        if key not in cache:
+            ar = set()
+            for n in own_nodes(f.node):
+                if isinstance(n, (ast.For, ast.comprehension)) and isinstance(n.target, (ast.Tuple, ast.List)) and ast.unparse(n.iter) == txt:
+                    ar.add(len(n.target.elts))
+            cache[key] = ar
+        return cache[key]
 
     def _sibling_unpack_arities(self, f, src_name):
         key = (f, src_name)
@@ -821,10 +865,14 @@ class Flow:
             elif t[0] == "new":
                 out.add(("inst", t[1].qual, ()))
             elif t[0] == "ext":
+                if t[1] in CONSUMERS and args:
+                    args = tuple(self._consumed(a, env, depth) for a in args)
                 out.add(("ext", t[1], args, kwargs))
             elif t[0] in ("bmeth", "umeth"):
                 name = t[2] if t[0] == "bmeth" else t[1]
                 recv = self.term(e.func.value, fn, env, depth + 1, mod) if isinstance(e.func, ast.Attribute) else fs()
+                if name in ("join", "extend", "update", "writelines") and args:
+                    args = tuple(self._consumed(a, env, depth) for a in args)
                 out.add(("meth", name, recv, args))
             elif t[0] == "lambda":
                 out |= self.term(t[1].body, fn, env, depth + 1, mod)
